@@ -425,5 +425,5 @@ def shard_aliases(ctx, shard, nshards):
 def run(ctx):
     ctx.run_parallel('shard_aliases')
     ctx.exhaustive('every key of the html and xsl snippet tables alone, in a sibling/child combination and inside a repeated parent (disjointness + callback positions)')
-    ctx.run_parallel('shard_numbering', extra=(ctx.pick(250, 8000),))
-    ctx.run_parallel('shard_positions', extra=(ctx.pick(300, 10000),))
+    ctx.run_parallel('shard_numbering', extra=(ctx.pick(250, 3000),))
+    ctx.run_parallel('shard_positions', extra=(ctx.pick(300, 4000),))
